@@ -15,6 +15,11 @@ BOUNDED  usage_matrix       usage and configuration errors exit 2: unknown diale
                             file, nested config file, in-file directive), missing --config file, malformed config file, unknown
                             option, invalid option value, `format --rules`; x lint / fix / format x path / stdin.
 
+Tiers: thorough = the full product (16 bodies x 12 suppression modes, those that apply: 105 pairs, x 22 (command, route, flags)
+combinations = 2310 runs, ~3 min at 6 processes); quick = 12 bodies, one rotating combination for two of every three pairs plus
+forced path/stdin (and directory / two-path) runs for the classes the property is most delicate about (~100 runs).
+Failure ids: C22/matrix/<command>/<route>/<clause>, C22/matrix/<command>/route-agreement/<class>, C22/matrix/usage/<scenario>-exits-2.
+
 The property's formula (C22):
   lint            1 iff some file has a violation (of ANY class) that is neither suppressed (noqa / ignore) nor a warning; --nofail: 0
   fix / format    1 iff  some file has an unsuppressed non-warning LINT violation that remains unfixable: it carries no fix, or its file
@@ -306,11 +311,24 @@ def _write(path, text):
 _RAW_CACHE: dict = {}
 
 
+def _worker_init():
+    """tqdm's class-level write lock is a multiprocessing RLock: once it exists in the parent it is SHARED by the forked workers, and
+    a fork taken while the parent's tqdm monitor thread holds it leaves a stale hold count in the child (its first release never
+    posts the semaphore -> every worker blocks in tqdm.__new__).  Give every worker a fresh, process-local lock."""
+    import threading
+    from tqdm import tqdm
+    tqdm.set_lock(threading.RLock())
+    tqdm.monitor_interval = 0
+
+
 def _run_group(task):
     """one (body, suppression mode): build the files, compute the oracle, run the selected (command, route, flags) combinations"""
     gi, bname, template, mode, combos, tier, seed, tmp = task
     fmt_rules = _format_rules()
-    probe, _ = _raw(template.replace("@N1@", "").replace("@N2@", "").replace("@PRE@", ""))
+    pkey = (template.replace("@N1@", "").replace("@N2@", "").replace("@PRE@", ""), (), False, False)
+    if pkey not in _RAW_CACHE:      # one probe per body: the modes of a body are run by the same worker (_run_body)
+        _RAW_CACHE[pkey] = _raw(pkey[0])
+    probe = _RAW_CACHE[pkey][0]
     built = _build(template, mode, probe)
     if built is None:
         return {"skipped": True, "group": f"{bname}/{mode}"}
@@ -348,7 +366,7 @@ def _run_group(task):
     if main_feu[1] == "fatal-templating-error-exits-1":
         # every route, the multi-file ones next to a clean sibling (so that this file decides the exit code)
         forced += [("fix", r, ("feu", "clean-sibling")) for r in ROUTES]
-    if main_feu[1] == "route-agreement" and (tier == "thorough" or k % 2 == 0):
+    if main_feu[1] == "route-agreement" and (tier == "thorough" or k % 3 == 0):
         forced += [("fix", "path", ("feu",)), ("fix", "stdin", ("feu",))]
     if (main_fix[1] == "unfixable-violation-exits-1"
             and _expect("format", (), [oracle(sql, noqa, "format")])[1] == "unfixable-violation-exits-1"):
@@ -416,6 +434,11 @@ def _run_group(task):
     return {"skipped": False, "group": f"{bname}/{mode}", "records": records}
 
 
+def _run_body(tasks):
+    """all suppression modes of one body in one worker: the raw-violation cache is shared between modes with the same text"""
+    return [_run_group(t) for t in tasks]
+
+
 def _function_of(command, route):
     return F_LINT if command == "lint" else (F_STDIN if route == "stdin" else F_PATHS)
 
@@ -433,18 +456,26 @@ def exit_code_matrix(tier="quick", seed=0):
         if tier == "thorough":
             combos = list(all_combos)
         else:
-            # stratified: every (body, mode) pair gets one combination, walking through the combination list so that every
-            # (command, route, flags) is used about equally often; the delicate classes add forced routes in the worker
-            combos = [all_combos[(off + 5 * (gi // len(MODES)) + 7 * (gi % len(MODES))) % len(all_combos)]]
+            # stratified: two of every three (body, mode) pairs get one combination, walking through the combination list so
+            # that every (command, route, flags) is used about equally often; the delicate classes add forced routes in the worker
+            bi, mi = divmod(gi, len(MODES))
+            combos = [all_combos[(off + 5 * bi + 7 * mi) % len(all_combos)]] if (bi + mi + off) % 3 else []
         tasks.append((gi, bname, template, mode, combos, tier, seed, tmp))
+    from tqdm import tqdm
+    tqdm.monitor_interval = 0      # no tqdm monitor thread in this process (see _worker_init)
     fmt = _format_rules()          # (also loads the dialect and the rules once, before forking)
     for (_n, sib), ign, is_fmt, fx in itertools.product(SIBLINGS, ((), ("parsing",), ("templating",), ("parsing", "templating")),
                                                         (False, True), (False, True)):
         if not (is_fmt and not fx):
             _RAW_CACHE[(sib, ign, is_fmt, fx)] = _raw(sib, ign, fmt if is_fmt else None, fix=fx)
     try:
-        with mp.get_context("fork").Pool(6) as pool:
-            results = pool.map(_run_group, tasks, chunksize=1)
+        with mp.get_context("fork").Pool(6, initializer=_worker_init) as pool:
+            # (a timeout instead of a silent hang: reported as a crash of the bounded check, never as a verdict)
+            by_body = {}
+            for t in tasks:
+                by_body.setdefault(t[1], []).append(t)
+            nested = pool.map_async(_run_body, list(by_body.values()), chunksize=1).get(timeout=1800 if tier != "thorough" else 7200)
+            results = [r for rs in nested for r in rs]
     finally:
         shutil.rmtree(tmp, ignore_errors=True)
     fails = _Fails()
@@ -485,7 +516,7 @@ def exit_code_matrix(tier="quick", seed=0):
     return {"name": "cli-exit-code-matrix",
             "bound": f"{n_groups} generated (file body x suppression mode) pairs out of {len(bodies)} bodies x {len(MODES)} modes (modes that "
                      f"do not apply to a body are skipped), {ev} runs of the real click commands "
-                     f"({'full product' if tier == 'thorough' else 'stratified seeded sample: 1 per pair + path/stdin for the delicate classes'} "
+                     f"({'full product' if tier == 'thorough' else 'stratified seeded sample: 1 for two of every three pairs + path/stdin for the delicate classes'} "
                      f"of {len(all_combos)} (command, route, flags) combinations: lint [--nofail] / fix [--FIX-EVEN-UNPARSABLE | --check y] / "
                      "format x one path / directory of two files / two path arguments / stdin), ansi dialect, jinja templater, 1 process",
             "rule": "expected exit code = the property's formula over the raw violation lists of separate Linter.lint_string runs "
